@@ -256,7 +256,8 @@ def run_harness(sub, rows, name, shards=None, race=False, timeout=1800, extra_ar
                     q.kill()
             raise Blocked(se.strip().splitlines()[-1])
         if p.returncode != 0:
-            raise Infra("harness %s shard failed rc=%s: %s" % (sub, p.returncode, (so + se)[-3000:]))
+            txt = so + se
+            raise Infra("harness %s shard failed rc=%s: %s" % (sub, p.returncode, txt if len(txt) < 4000 else txt[:1200] + "\n[...]\n" + txt[-2500:]))
         rows_out = read_ndjson(outp)
         if len(rows_out) != cnt:
             raise Infra("harness %s shard produced %d rows for %d cases" % (sub, len(rows_out), cnt))
